@@ -19,6 +19,8 @@ THEOREMS = [
     "handler_roundtrip", "handler_roundtrip_full_unsound",
     "dv_apply_spec", "scan_any_batching", "delete_exact_rowset",
     "compaction_output_perm", "compaction_keeps_key_order",
+    "delete_exact", "compaction_invisible", "vacuum_invisible", "history_exact",
+    "deleted_never_reappears", "survivor_never_lost",
 ]
 WEIGHTS = {"insert": 36, "delete": 26, "compact": 16, "vacuum": 5, "reopen": 9, "create": 8, "drop": 0,
            "view": 0, "index": 0}
